@@ -12,6 +12,31 @@ CLAIMED = {
          "Every built-in balancer is executed on generated keys (all lengths 0..67, nil/empty, high-bit, long) x 33 partition counts and compared with independently written FNV-1a/CRC-32/murmur2 + Sarama/librdkafka/Java partitioner formulas; RoundRobin/LeastBytes are checked call by call against their sequential law and, under concurrency, by porcupine on recorded call/return histories. Held on the executions listed in the evidence; not a proof over all keys.",
          "trusted: harness transcriptions of the reference clients' formulas; porcupine v1.3.0; partition lists are contiguous 0..n-1 as a Writer supplies them",
          "DESIGN.md section 5 C13"),
+ "C01": ("exploration",
+         "runtime monitor: offline oracle (R1-R5) over the fake brokers' journal, the byte-level wire tap and the recorded WriteMessages/Completion/Balancer history of a real kafka.Writer under seeded fault scripts",
+         "Thousands of seeded Writer scenarios (1-4 brokers, produce v2-v8, every codec, sync/async, 1-8 concurrent callers, lost acks, cuts at byte k, temporary/permanent codes, leader moves, slow responses) are executed against an in-memory cluster; afterwards every nil/WriteErrors entry and every Completion is matched against acknowledged attempts (applied + answered OK + response delivered in full), every stored record against the recorded balancer choice, every duplicate against a lost acknowledgement. Held on the executions run; interleavings are sampled, not enumerated.",
+         "trusted: fakenet's delivery accounting, the fake broker's atomic append, refcodec's strict record decoder; scenarios in which the client itself reported a deadline error are only judged for the clauses that do not depend on who won the race with the deadline",
+         "DESIGN.md section 5 C01"),
+ "C07": ("exploration",
+         "runtime monitor: per-partition log order vs per-goroutine submission sequence numbers embedded in message values, across retried batches; timer/size flush race widened by a verif hook",
+         "Writer scenarios biased to many small batches per partition, Async, failures of batch k while k+1 is queued, batch timer racing the size flush (hook writer.awaitBatch.timer); the oracle checks order inside every produce request and that every applied copy of an earlier batch precedes every copy of a later one.",
+         "trusted: fake broker applies requests in arrival order; runs with client-side deadline errors are not judged",
+         "DESIGN.md section 5 C07"),
+ "C08": ("exploration",
+         "runtime monitor: every produce request measured against BatchSize/BatchBytes in the library's own measure and in raw bytes; up-front rejection oracle; flush-without-further-input bounded-progress monitor",
+         "Sizes are placed at BatchBytes-1/=/+1 in the library's own measure (exported under the verif tag), rejects (oversized, topic mix) must return an error with nothing sent, and in the flush list an open Writer must send every accepted message without further writes or Close (size trigger with a 10-minute timer, timer trigger, quiescence after retried batches).",
+         "trusted: Message.totalSize as exported by the verif hook; the flush bound is 10 s of wall clock against timeouts <= 50 ms and is only reported after a confirmation re-run on an idle process",
+         "DESIGN.md section 5 C08"),
+ "C14": ("exploration",
+         "runtime oracle over AssignGroups outputs: coverage/exactly-once, per-topic balance, closed-form Range/RoundRobin formulas, order independence, rack-locality bound; exhaustive small scope + random large inputs, repeated for Go map orders",
+         "All inputs with one topic, members<=4, partitions<=7, 3 racks in every placement and two-topic subscription patterns are enumerated completely for the three balancers, plus 20k (quick) / 1M (thorough) random large groups; every input is evaluated 8/32 times under member-order permutations to exercise map iteration order.",
+         "trusted: the oracle formulas written from the property statement; partition ids are treated as opaque listed values",
+         "DESIGN.md section 5 C14"),
+ "C16": ("exploration",
+         "runtime differential oracle: library codecs vs reference decoders/encoders (stdlib gzip, golang/snappy + eapache xerial, pierrec/lz4 v2, klauspost zstd) over payload x chunking x read-size x pooled-object history prefixes, plus 32-goroutine use",
+         "Every codec variant (31) is driven over boundary payload sizes, write chunkings and read plans, with the pooled readers/writers first dragged through random histories (complete, abandoned, truncated, corrupted streams, failing sinks); outputs must round-trip, be readable by the reference decoder and reference-encoded streams must be read back exactly.",
+         "trusted: the reference libraries (zstd shares klauspost with the library: stated); pool reuse is observed by pointer identity, not forced",
+         "DESIGN.md section 5 C16"),
 }
 
 REASON_NOT_BUILT = "check not built yet in this round (design in DESIGN.md section 5); no claim is made"
